@@ -261,8 +261,10 @@ def resolve_attr_path(node):
     while isinstance(x, ast.Attribute):
         attr_path.append(x.attr)
         x = x.value
-    if isinstance(x, ast.Name):
-        attr_path.append(x.id)
+    if not isinstance(x, ast.Name):
+        # The target hangs off a call result, constant or other expression: not a resolvable global path
+        return None
+    attr_path.append(x.id)
     return ".".join(reversed(attr_path))
 
 
@@ -542,6 +544,9 @@ class RecordContextMatcher:
         # Add whitelisted functions to global dict
         self.data.update({func.__name__: func for func in FUNCTION_WHITELIST})
 
+        # The only callables a selector may invoke, fixed before any generator variable can be bound
+        self.allowed_calls = {k: v for k, v in self.data.items() if callable(v)}
+
         self.data["r"] = rec
         self.rec = rec
 
@@ -629,12 +634,16 @@ class RecordContextMatcher:
                 raise InvalidOperation("Error, only ast.Attribute or ast.Name are expected")
 
             func_name = resolve_attr_path(node)
-            if not (callable(self.data.get(func_name)) or func_name in WHITELIST):
+            if func_name in self.allowed_calls:
+                func = self.allowed_calls[func_name]
+            elif func_name in WHITELIST:
+                func = dynamic_fieldtype
+                for part in func_name.split("."):
+                    func = getattr(func, part)
+            else:
                 raise InvalidOperation(
                     "Call '{}' not allowed. No calls other then whitelisted 'global' calls allowed!".format(func_name)
                 )
-
-            func = self.eval(node.func)
 
             args = list(map(self.eval, node.args))
             kwargs = dict((kw.arg, self.eval(kw.value)) for kw in node.keywords)
